@@ -155,7 +155,11 @@ template<class T> bool applyMR(MultiRange<T>& m, Bits& model, const Op& op, cons
     vrt::cover(ty + ":copy-assign:" + (m.size() ? "nonempty" : "empty"));
     MultiRange<T> tmp;
     tmp.addRange(Range<T>(static_cast<T>(1), static_cast<T>(3)));
-    tmp = m;
+    tmp.addRange(Range<T>(static_cast<T>(5), static_cast<T>(6)));
+    tmp.addRange(Range<T>(static_cast<T>(8), static_cast<T>(9)));
+    tmp.addRange(Range<T>(static_cast<T>(11), static_cast<T>(12)));
+    tmp = m; // onto a target that holds more ranges than most sources
+    vrt::expect(dumpMR(tmp) == dumpMR(m), "copy.equal", ty + ":multirange-assign", [&] { return hist + " => assigned copy holds " + dumpMR(tmp) + " source " + dumpMR(m); });
     MultiRange<T> fresh;
     fresh.addRange(Range<T>(static_cast<T>(0), static_cast<T>(2)));
     m = tmp;
@@ -297,10 +301,18 @@ template<class T> void randomFor(vrt::Case& c)
     else if (op.kind == 'c') { rs.clear(); rsModel.clear(); }
     else
     {
+      // copy construction and assignment (onto an empty, a smaller and a larger target) give the source's ranges;
+      // mutating the copies leaves the source alone (checked by the comparison with the model below)
+      auto dumpRS = [](const RangeSet<T>& x) { string t; for (size_t i = 0; i < x.size(); ++i) t += "[" + str(x.getRange(i).begin()) + "," + str(x.getRange(i).end()) + "["; return t; };
+      const string src = dumpRS(rs);
       RangeSet<T> cp(rs);
+      vrt::expect(dumpRS(cp) == src, "copy.equal", ty + ":rangeset-ctor", [&] { return hist + " => RangeSet copy holds " + dumpRS(cp) + " source " + src; });
+      size_t pre = c.rng.below(7); // target size before the assignment: 0..6 ranges, so smaller and larger targets occur
       RangeSet<T> as;
-      as.addRange(Range<T>(static_cast<T>(0), static_cast<T>(1)));
+      for (size_t q = 0; q < pre; ++q) as.addRange(Range<T>(static_cast<T>(q), static_cast<T>(q + 2)));
       as = rs;
+      vrt::expect(dumpRS(as) == src, "copy.equal", ty + ":rangeset-assign:" + (pre > rs.size() ? "onto-larger" : pre == 0 ? "onto-empty" : "onto-smaller-or-equal"), [&] { return hist + " => RangeSet assigned onto a target of " + str(pre) + " ranges holds " + dumpRS(as) + " source " + src; });
+      vrt::cover(ty + ":rangeset-assign:" + (pre > rs.size() ? "onto-larger" : pre == 0 ? "onto-empty" : "onto-smaller-or-equal"));
       cp.restrictTo(Range<T>(static_cast<T>(0), static_cast<T>(1)));
       as.clear();
     }
